@@ -5,7 +5,7 @@ inputs rendered as OpenMetrics text and run through the real backfill()."""
 META = {
     "text": "Backfill.tla builds inputs (samples at window/position timestamps incl. negative windows, window boundaries and last "
             "milliseconds, NaN/Inf values, optionally one sample without timestamp) and runs the transcribed algorithm step by "
-            "step (scan for min/max, alignment of the start with Go's truncating division, one loop iteration per block duration "
+            "step (scan for min/max, alignment of the start to its block range -- the floor, as fixed by a01d00d164 --, one loop iteration per block duration "
             "with the next-sample skip, flush). TLC checks that the written blocks are exactly the partition of the input by "
             "aligned window (reference, with floor), that every block lies in one window, that nothing foreign is written, that "
             "an input lacking a timestamp is rejected as a whole, and termination. Every terminal state (input, demanded blocks, "
@@ -18,7 +18,7 @@ META = {
             "Per-series input order is increasing in time (OpenMetrics requirement).",
     "technique": "TLA+ transcription + reference (Backfill.tla) checked by TLC; TLC-generated inputs run through cmd/promtool backfill() "
                  "and the written blocks read back",
-    "design_ref": "DESIGN.md §5 C50, §7 H13",
+    "design_ref": "DESIGN.md §5 C50, §7 H13 (confirmed, fixed by a01d00d164)",
     "level": "model_checking",
 }
 
